@@ -288,6 +288,21 @@ macro_rules! mk {
     };
 }
 
+/// Drives a future of a *nested* async macro to completion from sync code by polling it with a
+/// no-op waker (nested invocations are single-branch: nothing is spawned, nothing ever pends on
+/// an external event).
+pub fn drive<T>(f: impl std::future::Future<Output = T>) -> T {
+    let mut f = Box::pin(f);
+    let w = futures::task::noop_waker();
+    let mut cx = std::task::Context::from_waker(&w);
+    for _ in 0..1_000_000 {
+        if let std::task::Poll::Ready(v) = f.as_mut().poll(&mut cx) {
+            return v;
+        }
+    }
+    panic!("nested future did not complete");
+}
+
 pub fn block_on<T>(f: impl std::future::Future<Output = T>) -> T {
     let rt = tokio::runtime::Builder::new_current_thread().enable_time().build().unwrap();
     let local = tokio::task::LocalSet::new();
